@@ -26,9 +26,14 @@ fn ids_of(s: &HpoSet) -> Vec<u32> {
 }
 
 fn check_subset(ont: &Ontology, r: &RefOnt, x: &[u32]) -> V {
+    let set = set_of(ont, x);
+    check_set(ont, r, &set, x)
+}
+
+/// all observations of one (possibly long-lived) HpoSet against the model set `x`
+fn check_set(ont: &Ontology, r: &RefOnt, set: &HpoSet, x: &[u32]) -> V {
     let v = |site: &str, sig: &str, det: String| Some((site.to_string(), sig.to_string(), det));
     let xs: BTreeSet<u32> = x.iter().copied().collect();
-    let set = set_of(ont, x);
     // len / is_empty / contains / iter / get
     if set.len() != xs.len() || set.is_empty() != xs.is_empty() {
         return v("HpoSet::len", "len/is_empty disagree with the members", format!("set {x:?}: len {}", set.len()));
@@ -182,6 +187,145 @@ pub fn run(ctx: &mut Ctx) {
         ctx.outcome(crate::ctx::fnv_str(what) % 65536);
         ctx.sample(|| json!({"family": what, "facts": f.to_json(), "subsets": 1u32 << n}));
     }
+    // ---- operation sequences on one live HpoSet: queries interleaved with in-place mutations and Extend
+    {
+        let fam = family_e(2, 2, &[200, 7]);
+        let depth = if thorough { 4 } else { 3 };
+        ctx.space("histories/live-set", &format!("{} ontologies (k = 2) x 3 start sets x all sequences of length <= {depth} over {{extend(t) for each term, remove_obsolete, remove_modifier, replace_obsolete}}; after every step the whole observation of the live set (incl. information_content, gene/disease unions, categories) is compared with the model set", fam.len()));
+        for (f, what) in &fam {
+            if !ctx.take() {
+                continue;
+            }
+            ctx.state();
+            ctx.nontrivial();
+            let r = RefOnt::derive(f);
+            let ids: Vec<u32> = f.terms.iter().map(|t| t.id).collect();
+            let n = ids.len();
+            let ont = match drive::from_bytes(&encode::encode(f, &EncOpts::v(3))) {
+                Ok(Ok(o)) => o,
+                _ => continue,
+            };
+            // ops: 0..n = extend(ids[i]); n = remove_obsolete; n+1 = remove_modifier; n+2 = replace_obsolete
+            let nops = n + 3;
+            let starts: Vec<Vec<u32>> = vec![vec![], vec![ids[3]], ids.clone()];
+            let mut seqs: Vec<Vec<usize>> = vec![vec![]];
+            let mut frontier: Vec<Vec<usize>> = vec![vec![]];
+            for _ in 0..depth {
+                let mut next = vec![];
+                for sq in &frontier {
+                    for op in 0..nops {
+                        let mut t = sq.clone();
+                        t.push(op);
+                        next.push(t);
+                    }
+                }
+                seqs.extend(next.iter().cloned());
+                frontier = next;
+            }
+            for start in &starts {
+                for sq in &seqs {
+                    ctx.exec();
+                    ctx.validated();
+                    ctx.transitions(sq.len() as u64 + 1);
+                    let res = guard(|| -> V {
+                        let mut set = set_of(&ont, start);
+                        let mut model: BTreeSet<u32> = start.iter().copied().collect();
+                        let snapshot = |m: &BTreeSet<u32>| -> Vec<u32> { m.iter().copied().collect() };
+                        if let Some(x) = check_set(&ont, &r, &set, &snapshot(&model)) {
+                            return Some(x);
+                        }
+                        for (step, op) in sq.iter().enumerate() {
+                            if *op < n {
+                                set.extend(std::iter::once(ont.hpo(ids[*op]).unwrap()));
+                                model.insert(ids[*op]);
+                            } else if *op == n {
+                                set.remove_obsolete();
+                                model.retain(|t| !r.terms[t].obsolete);
+                            } else if *op == n + 1 {
+                                set.remove_modifier();
+                                model.retain(|t| !r.is_modifier(*t, Mode::Defaults));
+                            } else {
+                                set.replace_obsolete();
+                                model = model.iter().map(|t| r.terms[t].replacement.unwrap_or(*t)).collect();
+                            }
+                            if let Some((site, sig, det)) = check_set(&ont, &r, &set, &snapshot(&model)) {
+                                return Some((site, format!("[live set after a sequence of operations] {sig}"), format!("start {start:?}, operations {:?} (step {step}): {det}", sq)));
+                            }
+                        }
+                        None
+                    });
+                    match res {
+                        Ok(None) => {}
+                        Ok(Some((site, sig, det))) => ctx.violation(&site, &sig, json!({"family": what, "facts": f.to_json(), "operations_legend": format!("0..{n} = extend(term i of {ids:?}); {n} = remove_obsolete; {} = remove_modifier; {} = replace_obsolete", n + 1, n + 2), "difference": det})),
+                        Err(p) => ctx.violation("HpoSet", "[live set] panics", json!({"family": what, "facts": f.to_json(), "start": start, "operations": sq, "observed": p})),
+                    }
+                }
+            }
+            ctx.sample(|| json!({"family": what, "start_sets": starts, "sequences": seqs.len()}));
+        }
+    }
+
+    // ---- structured large graphs: sets with more than 30 members / members with more than 30 ancestors
+    {
+        let family = crate::props::common::large_family();
+        ctx.space("large-structured/structured-subsets", &format!("{} large shapes (loaded with defaults; an obsolete+replaced last term; records on several terms) x structured subsets: every prefix, every suffix, every k-th term (k=2,3,7), all pairs (i, last), the full set", family.len()));
+        for (base, what) in &family {
+            if !ctx.take() {
+                continue;
+            }
+            ctx.state();
+            ctx.nontrivial();
+            let mut f = base.clone();
+            let ids: Vec<u32> = f.terms.iter().map(|t| t.id).collect();
+            let n = ids.len();
+            f.terms[n - 1].obsolete = true;
+            f.terms[n - 1].replacement = Some(ids[n / 2]);
+            f.terms[n - 2].replacement = Some(ids[n - 1]);
+            f.anns.push(Facts::ann(crate::model::Kind::Gene, 11, "GENE1", Some(ids[n - 1])));
+            f.anns.push(Facts::ann(crate::model::Kind::Gene, 33, "GENE3", None));
+            for i in (0..n).step_by(5) {
+                f.anns.push(Facts::ann(crate::model::Kind::Gene, 22, "GENE2", Some(ids[i])));
+                f.anns.push(Facts::ann(crate::model::Kind::Omim, 600_000 + (i as u32 % 3), &format!("Disease {}", i % 3), Some(ids[i])));
+            }
+            f.anns.push(Facts::ann(crate::model::Kind::Orpha, 77, "Orpha one", Some(ids[n / 3])));
+            f.anns.push(Facts::ann(crate::model::Kind::Orpha, 78, "Orpha two, bare", None));
+            let r = RefOnt::derive(&f);
+            ctx.transitions(f.n_steps());
+            let ont = match drive::from_bytes(&encode::encode(&f, &EncOpts::v(3))) {
+                Ok(Ok(o)) => o,
+                other => {
+                    ctx.violation("Ontology::from_bytes", "rejects a file laid out as documented", json!({"shape": what, "observed": format!("{:?}", other.map(|r| r.map(|_| ())))}));
+                    continue;
+                }
+            };
+            let mut sorted = ids.clone();
+            sorted.sort_unstable();
+            let mut subsets: Vec<Vec<u32>> = vec![sorted.clone()];
+            for k in 1..n {
+                subsets.push(sorted[..k].to_vec());
+                subsets.push(sorted[k..].to_vec());
+            }
+            for k in [2usize, 3, 7] {
+                subsets.push(sorted.iter().copied().step_by(k).collect());
+                subsets.push(sorted.iter().copied().skip(1).step_by(k).collect());
+            }
+            for i in 0..n {
+                subsets.push(vec![ids[i], ids[n - 1]]);
+            }
+            for x in &subsets {
+                ctx.exec();
+                ctx.validated();
+                ctx.transitions(16);
+                match guard(|| check_subset(&ont, &r, x)) {
+                    Ok(None) => {}
+                    Ok(Some((site, sig, det))) => ctx.violation(&site, &format!("[large shape] {sig}"), json!({"shape": what, "difference": det})),
+                    Err(p) => ctx.violation("HpoSet", "[large shape] panics", json!({"shape": what, "set": x, "observed": p})),
+                }
+            }
+            ctx.sample(|| json!({"shape": what, "n_terms": n, "subsets": subsets.len()}));
+        }
+    }
+
     // ---- custom modifier roots and categories (Ontology::modifier_mut / categories_mut are public)
     let small = family_e(1, 2, &[200, 7]);
     ctx.space("custom-modifier-roots-and-categories", &format!("{} ontologies (k <= 2, no flags) built with build_minimal; every single term and every pair of terms installed as custom modifier roots through modifier_mut(), categories set to an unrelated pair through categories_mut(); every subset as HpoSet: without_modifier / remove_modifier / categories", small.iter().filter(|(f, _)| f.terms.iter().all(|t| !t.obsolete && t.replacement.is_none())).count()));
